@@ -28,6 +28,18 @@ class LoopSpec(object):
         self.decl = decl or {}
 
 
+class Hook(object):
+    """Ghost code run after a call site.  target: source text of the callee expression
+    (e.g. 'uniq_attrs.append'); nth: which occurrence in document order (None: all);
+    fn(c): updates c.ghost[...]; writes: names of the ghost variables it assigns."""
+
+    def __init__(self, target, fn, writes, nth=None):
+        self.target = target
+        self.fn = fn
+        self.writes = tuple(writes)
+        self.nth = nth
+
+
 class Case(object):
     """One typing/configuration of a function under contract."""
     name = 'default'
@@ -37,6 +49,8 @@ class Case(object):
     modifies = ()            # ('self.index', ...)  heap locations the function may write
     loops = {}               # ordinal string -> LoopSpec
     locals = {}              # local name -> T, for locals initialised with an empty literal
+    hooks = ()               # ghost hooks (Hook)
+    ghost = None             # ghost(c) -> {name: V}: ghost variables at function entry
     status = 'verified'      # 'verified' | 'assumed' (external / out of reach) | 'bounded'
     pure = True
 
@@ -103,6 +117,16 @@ class Ctx(object):
         self.extra = []            # assumptions produced while evaluating (lemma instances)
         self.proving = False       # True: postconditions are being proved; False: used at a call site
         self.fp = None             # float log of the current path (spec-side float facts go here)
+
+    def ghost_out(self, name, ty):
+        """A ghost result of the function: when proving, the final value of ghost variable
+        `name`; at a call site, a fresh (existentially quantified) constant."""
+        if self.proving:
+            return self.ghost[name].t
+        key = '_ghost_out_' + name
+        if not hasattr(self, key):
+            setattr(self, key, z3.Const(fresh_name('g_' + name), sort_of(ty)))
+        return getattr(self, key)
 
     def forall(self, decls, body, patterns=None):
         """Universally quantified clause of a contract.  decls: [(name, z3 sort)].
